@@ -538,6 +538,16 @@ hwloc_get_common_ancestor_obj (hwloc_topology_t topology __hwloc_attribute_unuse
    * and obj2->parent. Also, even if at some point we find ancestors of
    * of the same depth, their ancestors may have different depth again.
    */
+  if (obj1->depth < 0 || obj2->depth < 0) {
+    /* memory, I/O and Misc objects have virtual depths that cannot be compared
+     * with each other or with normal depths, look for the first shared ancestor instead.
+     */
+    hwloc_obj_t a, b;
+    for(a = obj1; a; a = a->parent)
+      for(b = obj2; b; b = b->parent)
+        if (a == b)
+          return a;
+  }
   while (obj1 != obj2) {
     while (obj1->depth > obj2->depth)
       obj1 = obj1->parent;
